@@ -544,6 +544,66 @@ pub fn run_check(replay: Option<Value>) -> i32 {
         }
       }
     }
+    // far from the time origin the doubles inside a step can be enumerated: a hundred steps of twenty-four ulps each from
+    // 1.7e12 (and the mirror image); the dense output on EVERY representable time of the run against the exact solution
+    // (the step ends are accurate to 1e-10 there; an interpolant that loses the abscissa's digits is off by 1e-6)
+    for m in [Method::RK4, Method::RK23, Method::DOPRI5, Method::DOP853, Method::RADAU] {
+        for backward in [false, true] {
+            let key = format!("every-double:{}:{}", mname(m), backward as u8);
+            let dirn = if backward { -1.0 } else { 1.0 };
+            let p0 = base(Base::Harmonic(1.0));
+            let p = if backward { reflect(&p0) } else { p0 };
+            let o: f64 = 1.7e12;
+            let ulp = f64::from_bits(o.to_bits() + 1) - o;
+            let h = 24.0 * ulp;
+            let (x0, xend) = (dirn * o, dirn * (o + 100.0 * h));
+            let mut c = Cfg::new(m, x0, xend, &p.y0).tol(1e-6, 1e-8);
+            c.first_step = Some(dirn * h);
+            if m != Method::RK4 {
+                c.max_step = Some(h);
+            }
+            c.user_jac = true;
+            c.dense = true;
+            let r = run(&p, &c);
+            rep.evaluations += 1;
+            rep.transitions += r.st.n_ode;
+            let mut bad: Option<String> = None;
+            match r.sol() {
+                Some(s) if s.status == Status::Success => {
+                    let end_err = s.t.iter().zip(&s.y).fold(0.0f64, |a, (t, y)| {
+                        let ex = p.exact(x0, &p.y0, *t).unwrap();
+                        y.iter().zip(&ex).fold(a, |b, (u, v)| b.max((u - v).abs()))
+                    });
+                    let mut worst = (0.0f64, 0.0f64);
+                    let mut n = 0u64;
+                    let mut t = x0;
+                    while (xend - t) * dirn >= 0.0 {
+                        if let Ok(y) = s.sol(t) {
+                            let ex = p.exact(x0, &p.y0, t).unwrap();
+                            let e = y.iter().zip(&ex).fold(0.0f64, |b, (u, v)| b.max((u - v).abs()));
+                            if e > worst.0 {
+                                worst = (e, t);
+                            }
+                            n += 1;
+                        } else {
+                            bad = Some(format!("sol({:?}) is an error inside the interval", t));
+                            break;
+                        }
+                        t += dirn * ulp;
+                    }
+                    rep.validated += n;
+                    if bad.is_none() && worst.0 > 10.0 * end_err + 1e-8 {
+                        bad = Some(format!("sol({:?}) is off by {:e}; the step ends are accurate to {:e} ({} times evaluated)", worst.1, worst.0, end_err, n));
+                    }
+                    *rep.tags.entry("every-double".into()).or_insert(0) += 1;
+                }
+                _ => bad = Some(format!("the run ended with {}", r.outcome_name())),
+            }
+            if let Some(msg) = bad {
+                rep.violations.push(Violation::new(&key, "sol-interior", format!("{} on the oscillator from {:e} in steps of twenty-four ulps: {}", mname(m), x0, msg), json!({"key": key})).with("method", mname(m)).with("api", "sol").with("scene", "every-double"));
+            }
+        }
+    }
     if let Some(case) = replay {
         if let Some(name) = case["regression"].as_str() {
             return regress::replay(name).unwrap_or(2);
